@@ -136,6 +136,7 @@ pub extern "C" fn askar_store_generate_raw_key(
 ) -> ErrorCode {
     catch_err! {
         trace!("Create raw store key");
+        check_useful_c_ptr!(out);
         let seed = match seed.as_slice() {
             s if s.is_empty() => None,
             s => Some(s)
